@@ -24,6 +24,9 @@ ASSUME = [
     "parameter keys are emitted unescaped by the code ('%s=%s'); C20_params_order assumes keys without '&'/'=' "
     "(every key yowsup uses is a plain identifier); lone surrogates are outside the str domain (not Unicode "
     "scalar values; str.encode and urllib reject them)",
+    "the model functions are pure; that the implementation's are too (no dependence on earlier calls on the same "
+    "WARequest / env object or on class-level state) is established by driving long-lived objects through call "
+    "sequences, not proved",
     "the tie model<->code is differential testing: all 256 single bytes, all code points below 0x300 and the "
     "UTF-8 length boundaries exhaustively, random bytes/str/int values and parameter lists, the parameter list "
     "of a real WACodeRequest",
@@ -66,19 +69,52 @@ def unjson(j):
     return int(j[1])
 
 
-def impl_urlencode(v):
+_SHARED = {}
+
+
+def shared_request():
+    """one long-lived WARequest object: calls made through it must not depend on earlier calls"""
+    if "req" not in _SHARED:
+        _SHARED["req"] = new_request_object()
+    return _SHARED["req"]
+
+
+def fresh_class(modname, clsname):
+    """a pristine copy of a class (module reloaded): used only to shrink a history-dependent failure to a short
+    call sequence that reproduces from a fresh process"""
+    import importlib
+    return getattr(importlib.reload(importlib.import_module(modname)), clsname)
+
+
+def shrink_history(history, last, run_pair):
+    """find one earlier call x such that [x, last] alone fails; else the tail of the history"""
+    seen = set()
+    for x in reversed(history[-6000:]):
+        k = repr(x)
+        if k in seen:
+            continue
+        seen.add(k)
+        try:
+            if run_pair(x, last):
+                return [x, last]
+        except Exception:
+            pass
+    return history[-40:] + [last]
+
+
+def impl_urlencode(v, via_instance=False):
     from yowsup.common.http.warequest import WARequest
     try:
-        r = WARequest.urlencode(v)
+        r = (shared_request() if via_instance else WARequest).urlencode(v)
         return r if isinstance(r, str) else ("notstr", repr(r))
     except Exception as e:
         return ("exn", type(e).__name__)
 
 
-def impl_params(ps):
+def impl_params(ps, via_instance=False):
     from yowsup.common.http.warequest import WARequest
     try:
-        r = WARequest.urlencodeParams(ps)
+        r = (shared_request() if via_instance else WARequest).urlencodeParams(ps)
         return r if isinstance(r, str) else ("notstr", repr(r))
     except Exception as e:
         return ("exn", type(e).__name__)
@@ -271,9 +307,10 @@ def new_request_object():
     return object.__new__(WARequest)    # encryptParams uses no instance state
 
 
-def real_encrypt(params, pubkey_obj, rec):
-    """calls the real WARequest.encryptParams; returns (blob bytes | None, error text | None)"""
-    req = new_request_object()
+def real_encrypt(params, pubkey_obj, rec, req=None):
+    """calls the real WARequest.encryptParams (on `req`, default a fresh object);
+    returns (blob bytes | None, error text | None)"""
+    req = req if req is not None else new_request_object()
     try:
         r = req.encryptParams(params, pubkey_obj)
     except Exception as e:
@@ -339,7 +376,25 @@ def run(ctx):
         kinds["bytes" if isinstance(v, bytes) else "str" if isinstance(v, str) else "int"] += 1
         enc = impl[i]
         bad = oracle_value(v, enc)
+        hist_dep = False
         if bad:
+            try:
+                pristine = fresh_class("yowsup.common.http.warequest", "WARequest").urlencode(v)
+                hist_dep = oracle_value(v, pristine) is None
+            except Exception:
+                hist_dep = False
+            _SHARED.clear()
+        if bad and hist_dep:              # right on a pristine class, wrong here: depends on earlier calls
+            def pair_fails0(x, last):
+                cls = fresh_class("yowsup.common.http.warequest", "WARequest")
+                cls.urlencode(x)
+                return oracle_value(last, cls.urlencode(last)) is not None
+            short = shrink_history(vals[:i], v, pair_fails0)
+            _SHARED.clear()
+            viol("oracle:urlencode-history", {"op": "urlencode-seq", "values": [jsonable(x) for x in short],
+                 "observed": repr(enc)[:200], "problem": bad,
+                 "expected": "the encoding of the last value does not depend on earlier calls"})
+        elif bad:
             sv = shrink_value(v, lambda x: oracle_value(x, impl_urlencode(x)) is not None)
             viol("oracle:urlencode", {"op": "urlencode", "value": jsonable(sv), "observed": repr(impl_urlencode(sv))[:200],
                                       "problem": oracle_value(sv, impl_urlencode(sv)) or bad,
@@ -349,6 +404,7 @@ def run(ctx):
             e = enc.encode("utf-8") if isinstance(enc, str) else enc
             if m != e:
                 mism["urlencode"] += 1
+            if m != e and not hist_dep:
 
                 def differs(x):
                     r = impl_urlencode(x)
@@ -362,6 +418,39 @@ def run(ctx):
             nontrivial.add(("v", repr(v)))
         if i % 733 == 0:
             ctx.add_sample({"value": jsonable(v) if len(repr(v)) < 80 else repr(v)[:80], "urlencode": repr(enc)[:100]})
+    # histories: the model is a pure function, so a result must not depend on what was encoded before, nor on
+    # whether the call goes through the class or through one long-lived object.  Look-alike values of different
+    # types right after each other, then a shuffled re-run of a sample through the shared object.
+    alike = ["1", b"1", 1, "1", "b'1'", b"b'1'", "a", b"a", "a", "-1", -1, b"-1", "", b"", 0, "0", b"0", "~", b"~",
+             "\u00e9", "\u00e9".encode("utf-8"), "\u00e9".encode("latin-1"), "%c3%a9", "True"]
+    sample = alike * 2 + [vals[rng.randrange(len(vals))] for _ in range(400 if ctx.tier == "quick" else 5000)]
+    rng.shuffle(sample)
+    sample = alike + sample
+    prev = None
+    for j, v in enumerate(sample):
+        evals += 1
+        enc = impl_urlencode(v, via_instance=(j % 2 == 0))
+        alone_ok = oracle_value(v, enc) is None
+        m = model.call("run_urlencode", enc_value(v)) if model else None
+        if not alone_ok or (m is not None and m != (enc.encode("utf-8") if isinstance(enc, str) else enc)):
+            fresh = impl_urlencode(v)
+
+            def pair_fails(x, last):
+                cls = fresh_class("yowsup.common.http.warequest", "WARequest")
+                cls.urlencode(x)
+                r = cls.urlencode(last)
+                return oracle_value(last, r) is not None
+            short = shrink_history(vals + sample[:j], v, pair_fails) if not alone_ok else [v]
+            _SHARED.clear()
+            viol("oracle:urlencode-history" if not alone_ok else "correspondence:C20.urlencode-history",
+                 {"op": "urlencode-seq", "values": [jsonable(x) for x in short],
+                  "observed": repr(enc)[:200], "same_call_again": repr(fresh)[:200], "model": repr(m)[:200],
+                  "problem": oracle_value(v, enc) or "differs from the pure model",
+                  "expected": "the encoding of the last value does not depend on earlier calls"},
+                 found_input=not alone_ok)
+            if m is not None:
+                mism["urlencode"] += 1
+        prev = v
     # the standard decoder vs the model's percent_decode, incl. malformed / upper-case escapes
     if model:
         ds = []
@@ -442,7 +531,7 @@ def run(ctx):
         if rng.random() < .3:      # make order observable: keys in descending order, duplicates
             ps.sort(key=lambda kv: kv[0], reverse=True)
         plists.append(ps)
-    implp = [impl_params(ps) for ps in plists]
+    implp = [impl_params(ps, via_instance=(i % 2 == 1)) for i, ps in enumerate(plists)]
     modp = model.call_many("run_urlencode_params", [[[[ord(c) for c in k], enc_value(v)] for k, v in ps] for ps in plists]) \
         if model else None
     for i, ps in enumerate(plists):
@@ -507,7 +596,22 @@ def run(ctx):
         except Exception as e:
             got = ("exn", type(e).__name__)
         okay = got == exp
+        alone_fine = False
         if not okay:
+            try:
+                alone_fine = fresh_class("yowsup.env.env_android", "AndroidYowsupEnv")().getToken(ph) == exp
+            except Exception:
+                alone_fine = False
+        if not okay and alone_fine:       # right on a pristine object, wrong here: depends on earlier calls
+            def tok_pair_fails0(x, last):
+                e = fresh_class("yowsup.env.env_android", "AndroidYowsupEnv")()
+                e.getToken(x)
+                return e.getToken(last) != base64.b64encode(_hmac.new(
+                    ref_key[:64], ref_sig + ref_cls + last.encode("utf-8"), hashlib.sha1).digest())
+            short = shrink_history(phones[:phones.index(ph)], ph, tok_pair_fails0)
+            viol("oracle:token-history", {"op": "token-seq", "phones": [[ord(c) for c in x] for x in short],
+                 "observed": repr(got), "expected": repr(exp), "problem": "token depends on earlier calls"})
+        elif not okay:
             viol("oracle:token", dict(case, observed=repr(got), expected=repr(exp),
                  problem="token != base64(HMAC-SHA1(key[:64], signature || classes-md5 || phone)) by hmac/hashlib "
                          "with the pinned constants"))
@@ -516,7 +620,8 @@ def run(ctx):
                                           consts["_MD5_CLASSES"].encode(), [ord(c) for c in ph]])
             if m != [got]:
                 mism["token"] += 1
-                viol("correspondence:C20.getToken", dict(case, impl=repr(got), model=repr(m)), found_input=not okay)
+                if not alone_fine:
+                    viol("correspondence:C20.getToken", dict(case, impl=repr(got), model=repr(m)), found_input=not okay)
         nontrivial.add(("t", ph))
     # the registered/current environment is the android one and gives the same token
     try:
@@ -528,6 +633,35 @@ def run(ctx):
     except Exception as e:
         viol("oracle:token", {"op": "token", "phone": [], "via": "YowsupEnv.getCurrent()", "observed": repr(e)})
 
+    # histories: tokens for a shuffled re-run over two env objects and the registered singleton must be the same
+    if envobj is not None:
+        env2 = AndroidYowsupEnv()
+        objs = [envobj, env2]
+        try:
+            objs.append(YowsupEnv.getCurrent())
+        except Exception:
+            pass
+        again = phones[:12] * 2 + [phones[rng.randrange(len(phones))] for _ in range(100 if ctx.tier == "quick" else 2000)]
+        rng.shuffle(again)
+        prev = None
+        for j, ph in enumerate(again):
+            evals += 1
+            exp = base64.b64encode(_hmac.new(ref_key[:64], ref_sig + ref_cls + ph.encode("utf-8"), hashlib.sha1).digest())
+            try:
+                got = objs[j % len(objs)].getToken(ph)
+            except Exception as e:
+                got = ("exn", type(e).__name__)
+            if got != exp:
+                def tok_pair_fails(x, last):
+                    e = fresh_class("yowsup.env.env_android", "AndroidYowsupEnv")()
+                    e.getToken(x)
+                    return e.getToken(last) != base64.b64encode(_hmac.new(
+                        ref_key[:64], ref_sig + ref_cls + last.encode("utf-8"), hashlib.sha1).digest())
+                short = shrink_history(phones + again[:j], ph, tok_pair_fails)
+                viol("oracle:token-history", {"op": "token-seq", "phones": [[ord(c) for c in x] for x in short],
+                     "object": j % len(objs), "observed": repr(got),
+                     "expected": repr(exp), "problem": "token depends on earlier calls / on the object used"})
+            prev = ph
     # ------------------------------------------------------------------ (iii) encryptParams
     from axolotl.ecc.curve import Curve
     nblob = 40 if ctx.tier == "quick" else 600
@@ -543,7 +677,7 @@ def run(ctx):
         spub = bytes(server.getPublicKey().serialize()[1:])
         case = {"op": "blob", "params": [[[ord(c) for c in k], jsonable(v)] for k, v in ps]}
         with Recorder() as rec:
-            blob, err = real_encrypt(ps, server.getPublicKey(), rec)
+            blob, err = real_encrypt(ps, server.getPublicKey(), rec, req=shared_request())
             b2, err2 = real_encrypt(ps, server.getPublicKey(), rec)
         if blob is None or b2 is None:
             viol("oracle:blob", dict(case, problem=err or err2))
@@ -598,6 +732,34 @@ def run(ctx):
             if model.call("orun_decrypt_blob", [other, blob]) != []:
                 viol("correspondence:C20.decrypt_blob-wrongkey", dict(case), found_input=False)
         nontrivial.add(("b", blob))
+    # histories on ONE object: every ordered pair (params_i, recipient_a) -> (params_j, recipient_b): each blob
+    # must open under ITS recipient key to ITS parameter string (no carried-over secret, key or text)
+    pool_ps = [[("cc", "49"), ("in", "123")], [("in", "123"), ("cc", "49")], [("cc", "49"), ("in", "124"), ("id", b"\x00~")]]
+    pool_keys = [Curve.generateKeyPair() for _ in range(2)]
+    combos = [(ps, kp) for ps in pool_ps for kp in pool_keys]
+    hist_pairs = 0
+    for c1 in combos:
+        for c2 in combos:
+            req = new_request_object()
+            hist_pairs += 1
+            evals += 2
+            seen_epub = []
+            for n, (ps, kp) in enumerate((c1, c2)):
+                blob, err = real_encrypt(ps, kp.getPublicKey(), None, req=req)
+                want = impl_params(ps)
+                try:
+                    epub, plain = harness_decrypt(blob, bytes(kp.getPrivateKey().serialize())) if blob else (None, None)
+                except Exception as e:
+                    epub, plain, err = None, None, "does not decrypt under its recipient key: %r" % (e,)
+                if plain is None or plain != want.encode("utf-8") or epub in seen_epub:
+                    viol("oracle:blob-history", {"op": "blob-seq", "calls": [
+                        {"params": [[[ord(c) for c in k], jsonable(v)] for k, v in ps_], "recipient": pool_keys.index(kp_)}
+                        for ps_, kp_ in (c1, c2)[:n + 1]], "failing_call": n,
+                        "problem": err or ("ephemeral key reused" if epub in seen_epub else
+                                           "decrypted to %r, expected %r" % (plain[:120], want[:120]))})
+                    break
+                seen_epub.append(epub)
+    ctx.coverage["blob_history_pairs"] = hist_pairs
     # the whole request path, offline: send(preview=True) with ENC_PUBKEY replaced on the instance
     if real_req is not None:
         evals += 1
@@ -667,7 +829,10 @@ def run(ctx):
              "token: digit strings 0..15 long + random unicode; real getToken == model(sha1 oracle) == "
              "hmac.new(key[:64], sig+cls+phone, sha1) on pinned constants.  blobs: fresh recipient key pair per "
              "case, two real calls each; decrypted by cryptography X25519+AESGCM; model run on the recorded draws "
-             "byte for byte; send(preview=True) path.  distinct_nontrivial = distinct values whose encoding is not "
+             "byte for byte; send(preview=True) path.  Histories: calls go alternately through the class and through ONE "
+             "long-lived WARequest object; look-alike values of different types in a row and a shuffled re-run; tokens "
+             "re-asked in shuffled order over two env objects and the singleton; every ordered pair (params_i, "
+             "recipient_a) -> (params_j, recipient_b) of encryptParams on one object.  distinct_nontrivial = distinct values whose encoding is not "
              "the identity + parameter lists with >= 2 entries + phones + blobs",
         assumptions_text=ASSUME)
 
@@ -725,6 +890,42 @@ def replay(ctx, data):
         print("observed:", got)
         print("expected:", exp)
         bad = got != exp
+    elif op == "urlencode-seq":
+        vs = [unjson(j) for j in case["values"]]
+        why = None
+        for v in vs:
+            enc = impl_urlencode(v, via_instance=True)
+            print("urlencode(%r) -> %r" % (v, enc))
+            why = oracle_value(v, enc)
+        print("problem (last call):", why or "none")
+        bad = why is not None
+    elif op == "token-seq":
+        from yowsup.env.env_android import AndroidYowsupEnv
+        ref = c20_env.read_ref()
+        k, s_, c = (base64.b64decode(ref[n]) for n in ("_KEY", "_SIGNATURE", "_MD5_CLASSES"))
+        e = AndroidYowsupEnv()
+        for cps in case["phones"]:
+            ph = "".join(chr(x) for x in cps)
+            exp = base64.b64encode(_hmac.new(k[:64], s_ + c + ph.encode("utf-8"), hashlib.sha1).digest())
+            got = e.getToken(ph)
+            print("getToken(%r) -> %r expected %r" % (ph, got, exp))
+            bad = got != exp
+    elif op == "blob-seq":
+        from axolotl.ecc.curve import Curve
+        keys = [Curve.generateKeyPair() for _ in range(2)]
+        req = new_request_object()
+        for call in case["calls"]:
+            ps = [("".join(chr(c) for c in k), unjson(v)) for k, v in call["params"]]
+            kp = keys[call["recipient"]]
+            blob, err = real_encrypt(ps, kp.getPublicKey(), None, req=req)
+            want = impl_params(ps).encode("utf-8")
+            try:
+                plain = harness_decrypt(blob, bytes(kp.getPrivateKey().serialize()))[1]
+            except Exception as ex:
+                plain = "does not decrypt: %r" % (ex,)
+            print("encryptParams(%r.., recipient %d) -> decrypts to %r ; expected %r" % (repr(ps)[:60], call["recipient"],
+                  plain if isinstance(plain, str) else plain[:100], want[:100]))
+            bad = plain != want
     else:
         print("nothing to replay for", data.get("what_no_longer_checks"), repr(case)[:300])
         return 0
